@@ -83,13 +83,15 @@ structure Cls where
 structure World (V : Type) where
   parse    : String → V → Option V        -- field name → raw value → converted (none: ParseError)
   parseAdd : V → Option V                 -- typed addition (base.py:401-421)
-  getter   : String → List V → Option V   -- property name → dependency values → converted result (none: getter raised)
+  getter   : String → List V → Option V   -- property name → dependency values → what the getter returns (none: it raised)
+  convert  : String → V → Option V        -- property name → getter result → converted to the declared return type (none: ParseError)
   deferred : String → Option V            -- `get_default(defer=True)` of a field (field.py:768-796)
 
 /-- the instance: `dict` contents and `__dict__` -/
 structure State (V : Type) where
   data  : Map V
   attrs : Map V
+  deriving DecidableEq
 
 inductive Exc | update | delete | parse | key | attr
   deriving Repr, DecidableEq
@@ -113,6 +115,15 @@ inductive Op (V : Type) where
 
 variable {V : Type}
 
+/-- the raw arguments an operation carries -/
+def Op.args : Op V → List V
+  | .setattr _ v => [v]
+  | .setitem _ v => [v]
+  | .setdefault _ v => [v]
+  | .update kvs => kvs.map (·.2)
+  | .ior kvs => kvs.map (·.2)
+  | _ => []
+
 /-- `parser.get_field(key)` (base.py:138-152) on a class whose alias sets are disjoint -/
 def getField (C : Cls) (k : String) : Option Field := C.fields.find? (fun f => f.aliases.contains k)
 
@@ -127,10 +138,29 @@ def fieldGet (W : World V) (s : State V) (f : Field) : Option V :=
     | some v => some v
     | none => W.deferred f.name
 
-/-- `field.parse_output_value(field.property.fget(self))`: the getter reads its dependencies through
-the attribute view; an unavailable dependency raises AttributeError inside the getter -/
+/-- the three ways `field.parse_output_value(field.property.fget(self))` can end -/
+inductive Computed (V : Type) where
+  | raised                 -- the getter raised (an unreadable dependency raises AttributeError inside it)
+  | unconvertible          -- the getter's result does not convert to the declared return type
+  | value (v : V)
+
+/-- the getter reads its dependencies through the attribute view (schema.py:240, 254-256) -/
+def compute3 (C : Cls) (W : World V) (s : State V) (p : Field) : Computed V :=
+  match p.deps.mapM (fun d => (getField C d).bind (fieldGet W s)) with
+  | none => .raised
+  | some xs =>
+    match W.getter p.name xs with
+    | none => .raised
+    | some raw =>
+      match W.convert p.name raw with
+      | none => .unconvertible
+      | some v => .value v
+
+/-- the value a property has now (none: reading it raises) -/
 def compute (C : Cls) (W : World V) (s : State V) (p : Field) : Option V :=
-  (p.deps.mapM (fun d => (getField C d).bind (fieldGet W s))).bind (W.getter p.name)
+  match compute3 C W s p with
+  | .value v => some v
+  | _ => none
 
 /-- the attribute view `obj.<attname>`: `Schema.__field_getter__`, schema.py:283-307 (none: AttributeError) -/
 def getattr (C : Cls) (W : World V) (s : State V) (f : Field) : Option V :=
@@ -151,42 +181,65 @@ def blocked (C : Cls) (s : State V) (p : Field) : Bool :=
       | none => true
       | some df => !s.attrs.has df.attname))
 
-/-- `Schema.__coerce_property__`, schema.py:222-267 -/
-def coerce (C : Cls) (W : World V) (s : State V) (p : Field) : State V :=
-  if p.noOutput then s                                            -- :223
-  else if blocked C s p then s
-  else match compute C W s p with
-    | none => s                                                   -- :240-246 getter failed: warn, keep
-    | some v => { s with data := s.data.set p.name v }            -- :255-256
+/-- `Schema.__coerce_property__`, schema.py:228-279 (after `fixes/C07-recompute-failure.patch`).  The flag says
+that a ParseError left the function (the converted result is demanded on a `force_error` context; under
+`collect_errors` it is collected and raised by the caller's `raise_error()`, schema.py:372).
+Before the repair (`lg`) a stored value survived a raising getter. -/
+def coerce (lg : Bool) (C : Cls) (W : World V) (s : State V) (p : Field) : State V × Bool :=
+  if p.noOutput then (s, false)                                   -- :229
+  else if blocked C s p then (s, false)                           -- :232-244
+  else match compute3 C W s p with
+    | .raised =>                                                  -- :246-258 getter failed: warn,
+      (if lg then s else { s with data := s.data.del p.name }, false)   --   and drop the value it no longer matches
+    | .unconvertible => (s, true)                                 -- :260-262 → field.py:1036 handle_error
+    | .value v => ({ s with data := s.data.set p.name v }, false) -- :269-270
 
-/-- schema.py:343-348 -/
-def coerceDependants (C : Cls) (W : World V) (s : State V) (f : Field) : State V :=
-  f.dependants.foldl (fun s q =>
+/-- the dependants loop, schema.py:365-371: the first escaping error ends it -/
+def coerceList (lg : Bool) (C : Cls) (W : World V) : State V → List String → State V × Bool
+  | s, [] => (s, false)
+  | s, q :: qs =>
     match getField C q with
-    | some p => if p.isProp then coerce C W s p else s
-    | none => s) s
+    | some p =>
+      if p.isProp then
+        match coerce lg C W s p with
+        | (s', true) => (s', true)
+        | (s', false) => coerceList lg C W s' qs
+      else coerceList lg C W s qs
+    | none => coerceList lg C W s qs
 
-/-- `Schema.__field_setter__`, schema.py:316-348.  The context is made with `force_error` and `raise_error()`
-follows the conversion (:323-325), so `Options.collect_errors` makes no difference here. -/
-def fieldSetter (C : Cls) (W : World V) (s : State V) (f : Field) (v : V) : State V × Res V :=
-  if C.opts.immutable || f.immutable then (s, .err .update)       -- :317-321
+def coerceDependants (lg : Bool) (C : Cls) (W : World V) (s : State V) (f : Field) : State V × Bool :=
+  coerceList lg C W s f.dependants
+
+/-- `Schema.__field_setter__`, schema.py:322-380.  The context is made with `force_error` and `raise_error()`
+follows the conversion (:329-331), so `Options.collect_errors` makes no difference.  Assignment and
+recomputation take effect together or not at all (:333-380: the state is put back when anything raises);
+before the repair (`lg`) the error left the field already assigned. -/
+def fieldSetter (lg : Bool) (C : Cls) (W : World V) (s : State V) (f : Field) (v : V) : State V × Res V :=
+  if C.opts.immutable || f.immutable then (s, .err .update)       -- :323-327
   else if f.isProp then
     -- a getter-only property has no input type (the value passes `parse_value` unchanged) and no
-    -- setter: the assignment only forces a recomputation (:327-333)
-    (coerceDependants C W (coerce C W s f) f, .ok none)
-  else match W.parse f.name v with                                -- :323-325
+    -- setter: the assignment only forces a recomputation (:337-343)
+    match coerce lg C W s f with
+    | (s1, true) => (if lg then s1 else s, .err .parse)
+    | (s1, false) =>
+      match coerceDependants lg C W s1 f with
+      | (s2, true) => (if lg then s2 else s, .err .parse)
+      | (s2, false) => (s2, .ok none)
+  else match W.parse f.name v with                                -- :329-331
     | none => (s, .err .parse)
     | some pv =>
       let s1 : State V :=
-        if f.noOutput then { data := s.data.del f.name, attrs := s.attrs.set f.attname pv }   -- :335-339
-        else { s with data := s.data.set f.name pv }                                          -- :341
-      (coerceDependants C W s1 f, .ok none)
+        if f.noOutput then { data := s.data.del f.name, attrs := s.attrs.set f.attname pv }   -- :345-349
+        else { s with data := s.data.set f.name pv }                                          -- :351
+      match coerceDependants lg C W s1 f with
+      | (s2, true) => (if lg then s2 else s, .err .parse)         -- :373-380
+      | (s2, false) => (s2, .ok none)
 
 /-- `Schema.__setitem__`, schema.py:350-371 -/
 def setitem (lg : Bool) (C : Cls) (W : World V) (s : State V) (k : String) (v : V) : State V × Res V :=
   if C.opts.immutable then (s, .err .update)
   else match getField C k with
-    | some f => fieldSetter C W s f v
+    | some f => fieldSetter lg C W s f v
     | none =>
       if C.excluded.contains k then (s, .err .update)             -- :359-362
       else match C.opts.addition with
@@ -291,9 +344,9 @@ def clear (lg : Bool) (C : Cls) (s : State V) : State V × Res V :=
 
 /-- attribute assignment `obj.a = v`: a field's attribute is the property installed by
 `assign_properties` (cls.py:312-343); any other name is a plain instance attribute -/
-def setattr (C : Cls) (W : World V) (s : State V) (a : String) (v : V) : State V × Res V :=
+def setattr (lg : Bool) (C : Cls) (W : World V) (s : State V) (a : String) (v : V) : State V × Res V :=
   match fieldByAtt C a with
-  | some f => if f.isProp then (s, .err .attr) else fieldSetter C W s f v    -- getter-only: no setter
+  | some f => if f.isProp then (s, .err .attr) else fieldSetter lg C W s f v    -- getter-only: no setter
   | none => ({ s with attrs := s.attrs.set a v }, .ok none)
 
 def delattr (lg : Bool) (C : Cls) (s : State V) (a : String) : State V × Res V :=
@@ -303,7 +356,7 @@ def delattr (lg : Bool) (C : Cls) (s : State V) (a : String) : State V × Res V 
 
 /-- one public mutating operation on a `Schema` instance -/
 def step (lg : Bool) (C : Cls) (W : World V) (s : State V) : Op V → State V × Res V
-  | .setattr a v => setattr C W s a v
+  | .setattr a v => setattr lg C W s a v
   | .delattr a => delattr lg C s a
   | .setitem k v => setitem lg C W s k v
   | .delitem k => delitem lg C s k
@@ -316,9 +369,17 @@ def step (lg : Bool) (C : Cls) (W : World V) (s : State V) : Op V → State V ×
   | .setdefault k v => setdefault lg C W s k v
   | .clear => clear lg C s
 
-/-- `Schema.__post_init__`, schema.py:269-275: the properties are computed once, in field order -/
-def postInit (C : Cls) (W : World V) (s : State V) : State V :=
-  (C.fields.filter (·.isProp)).foldl (coerce C W) s
+/-- `Schema.__post_init__`, schema.py:281-287: the properties are computed once, in field order; a result that
+does not convert makes the constructor raise (none: no instance) -/
+def postInitList (C : Cls) (W : World V) : State V → List Field → Option (State V)
+  | s, [] => some s
+  | s, p :: ps =>
+    match coerce false C W s p with
+    | (_, true) => none
+    | (s', false) => postInitList C W s' ps
+
+def postInit (C : Cls) (W : World V) (s : State V) : Option (State V) :=
+  postInitList C W s (C.fields.filter (·.isProp))
 
 /-! ### several instances: `copy()` (schema.py:492-498) gives an instance with its own `__dict__` -/
 
@@ -440,8 +501,8 @@ the options are the instance's own (schema.py:317) -/
 def setattrVia (mro : List (List Accessor)) (C : Cls) (W : World V) (s : State V) (a : String) (v : V) :
     State V × Res V :=
   match resolveAccessor mro a with
-  | some x => fieldSetter C W s x.field v
-  | none => setattr C W s a v
+  | some x => fieldSetter false C W s x.field v
+  | none => setattr false C W s a v
 
 /-! ### which options an instance carries
 
